@@ -53,6 +53,10 @@ func (pm *ProfileMergeV2) Merge(p *prof.Profile) error {
 	}
 
 	sanitizeProfile(p)
+	if p.PeriodType == nil {
+		// period_type is optional in pprof; the writer's decoder substitutes an empty one as well
+		p.PeriodType = &prof.ValueType{}
+	}
 
 	strIdx := make([]int64, len(p.StringTable))
 	for i := range p.StringTable {
